@@ -1,33 +1,5 @@
-mod engine;
-mod gen;
-mod glue;
-mod model;
+use lv::*;
 
-mod c01;
-mod c02;
-mod child;
-mod c03;
-mod c04;
-mod c05;
-mod c06;
-mod c07;
-mod c08;
-mod roll;
-mod fsx;
-mod c09;
-mod c10;
-mod c11;
-mod c12;
-mod c13;
-mod c14;
-mod doc;
-mod c15;
-mod c16;
-mod c17;
-mod c18;
-mod c19;
-mod c20;
-mod pat;
 
 use engine::*;
 use std::process::{Command, Stdio};
@@ -45,30 +17,32 @@ pub struct Prop {
     pub also_bg: bool,
     /// multipliers on the per-part case budgets written in the modules (quick, thorough)
     pub scale: (u64, u64),
+    /// thorough tier: coverage-guided campaign (cargo-fuzz target, runs) with the property's oracle inside the target
+    pub fuzz: Option<(&'static str, u64)>,
 }
 
 fn props() -> Vec<Prop> {
     vec![
-        Prop { id: "C01", run: c01::run, replay: c01::replay, meta: c01::meta, workers: (4, 16), also_release: false, also_bg: false, scale: (30, 100) },
-        Prop { id: "C02", run: c02::run, replay: c02::replay, meta: c02::meta, workers: (8, 16), also_release: false, also_bg: false, scale: (10, 10) },
-        Prop { id: "C03", run: c03::run, replay: c03::replay, meta: c03::meta, workers: (4, 16), also_release: false, also_bg: false, scale: (10, 20) },
-        Prop { id: "C04", run: c04::run, replay: c04::replay, meta: c04::meta, workers: (8, 16), also_release: false, also_bg: false, scale: (5, 10) },
-        Prop { id: "C05", run: c05::run, replay: c05::replay, meta: c05::meta, workers: (8, 16), also_release: false, also_bg: true, scale: (3, 5) },
-        Prop { id: "C06", run: c06::run, replay: c06::replay, meta: c06::meta, workers: (4, 16), also_release: false, also_bg: false, scale: (10, 10) },
-        Prop { id: "C07", run: c07::run, replay: c07::replay, meta: c07::meta, workers: (4, 16), also_release: false, also_bg: true, scale: (3, 5) },
-        Prop { id: "C08", run: c08::run, replay: c08::replay, meta: c08::meta, workers: (8, 16), also_release: false, also_bg: false, scale: (2, 1) },
-        Prop { id: "C09", run: c09::run, replay: c09::replay, meta: c09::meta, workers: (4, 8), also_release: true, also_bg: false, scale: (3, 3) },
-        Prop { id: "C11", run: c11::run, replay: c11::replay, meta: c11::meta, workers: (4, 16), also_release: true, also_bg: false, scale: (5, 5) },
-        Prop { id: "C12", run: c12::run, replay: c12::replay, meta: c12::meta, workers: (8, 16), also_release: false, also_bg: false, scale: (2, 1) },
-        Prop { id: "C13", run: c13::run, replay: c13::replay, meta: c13::meta, workers: (4, 16), also_release: false, also_bg: false, scale: (10, 20) },
-        Prop { id: "C14", run: c14::run, replay: c14::replay, meta: c14::meta, workers: (8, 16), also_release: false, also_bg: false, scale: (5, 2) },
-        Prop { id: "C15", run: c15::run, replay: c15::replay, meta: c15::meta, workers: (8, 16), also_release: false, also_bg: false, scale: (5, 3) },
-        Prop { id: "C16", run: c16::run, replay: c16::replay, meta: c16::meta, workers: (8, 16), also_release: false, also_bg: false, scale: (3, 1) },
-        Prop { id: "C17", run: c17::run, replay: c17::replay, meta: c17::meta, workers: (4, 16), also_release: false, also_bg: false, scale: (5, 10) },
-        Prop { id: "C18", run: c18::run, replay: c18::replay, meta: c18::meta, workers: (8, 16), also_release: false, also_bg: false, scale: (1, 1) },
-        Prop { id: "C19", run: c19::run, replay: c19::replay, meta: c19::meta, workers: (4, 16), also_release: false, also_bg: false, scale: (5, 5) },
-        Prop { id: "C20", run: c20::run, replay: c20::replay, meta: c20::meta, workers: (4, 16), also_release: false, also_bg: false, scale: (5, 10) },
-        Prop { id: "C10", run: c10::run, replay: c10::replay, meta: c10::meta, workers: (4, 16), also_release: false, also_bg: false, scale: (5, 5) },
+        Prop { id: "C01", run: c01::run, replay: c01::replay, meta: c01::meta, workers: (4, 16), also_release: false, also_bg: false, scale: (30, 100), fuzz: None },
+        Prop { id: "C02", run: c02::run, replay: c02::replay, meta: c02::meta, workers: (8, 16), also_release: false, also_bg: false, scale: (10, 10), fuzz: None },
+        Prop { id: "C03", run: c03::run, replay: c03::replay, meta: c03::meta, workers: (4, 16), also_release: false, also_bg: false, scale: (10, 20), fuzz: None },
+        Prop { id: "C04", run: c04::run, replay: c04::replay, meta: c04::meta, workers: (8, 16), also_release: false, also_bg: false, scale: (5, 10), fuzz: None },
+        Prop { id: "C05", run: c05::run, replay: c05::replay, meta: c05::meta, workers: (8, 16), also_release: false, also_bg: true, scale: (3, 5), fuzz: None },
+        Prop { id: "C06", run: c06::run, replay: c06::replay, meta: c06::meta, workers: (4, 16), also_release: false, also_bg: false, scale: (10, 10), fuzz: None },
+        Prop { id: "C07", run: c07::run, replay: c07::replay, meta: c07::meta, workers: (4, 16), also_release: false, also_bg: true, scale: (3, 5), fuzz: None },
+        Prop { id: "C08", run: c08::run, replay: c08::replay, meta: c08::meta, workers: (8, 16), also_release: false, also_bg: false, scale: (2, 1), fuzz: None },
+        Prop { id: "C09", run: c09::run, replay: c09::replay, meta: c09::meta, workers: (4, 8), also_release: true, also_bg: false, scale: (3, 3), fuzz: Some(("pattern_ast", 3000000)) },
+        Prop { id: "C11", run: c11::run, replay: c11::replay, meta: c11::meta, workers: (4, 16), also_release: true, also_bg: false, scale: (5, 5), fuzz: Some(("pattern_any", 6000000)) },
+        Prop { id: "C12", run: c12::run, replay: c12::replay, meta: c12::meta, workers: (8, 16), also_release: false, also_bg: false, scale: (2, 1), fuzz: None },
+        Prop { id: "C13", run: c13::run, replay: c13::replay, meta: c13::meta, workers: (4, 16), also_release: false, also_bg: false, scale: (10, 20), fuzz: None },
+        Prop { id: "C14", run: c14::run, replay: c14::replay, meta: c14::meta, workers: (8, 16), also_release: false, also_bg: false, scale: (5, 2), fuzz: Some(("config_doc", 3000000)) },
+        Prop { id: "C15", run: c15::run, replay: c15::replay, meta: c15::meta, workers: (8, 16), also_release: false, also_bg: false, scale: (5, 3), fuzz: None },
+        Prop { id: "C16", run: c16::run, replay: c16::replay, meta: c16::meta, workers: (8, 16), also_release: false, also_bg: false, scale: (3, 1), fuzz: None },
+        Prop { id: "C17", run: c17::run, replay: c17::replay, meta: c17::meta, workers: (4, 16), also_release: false, also_bg: false, scale: (5, 10), fuzz: None },
+        Prop { id: "C18", run: c18::run, replay: c18::replay, meta: c18::meta, workers: (8, 16), also_release: false, also_bg: false, scale: (1, 1), fuzz: None },
+        Prop { id: "C19", run: c19::run, replay: c19::replay, meta: c19::meta, workers: (4, 16), also_release: false, also_bg: false, scale: (5, 5), fuzz: Some(("env_expand", 6000000)) },
+        Prop { id: "C20", run: c20::run, replay: c20::replay, meta: c20::meta, workers: (4, 16), also_release: false, also_bg: false, scale: (5, 10), fuzz: Some(("literals", 4000000)) },
+        Prop { id: "C10", run: c10::run, replay: c10::replay, meta: c10::meta, workers: (4, 16), also_release: false, also_bg: false, scale: (5, 5), fuzz: Some(("pattern_ast", 3000000)) },
     ]
 }
 
@@ -319,6 +293,11 @@ fn parent(id: &str, tier: Tier) -> i32 {
         }
         let _ = std::fs::remove_dir_all(&tmp);
     }
+    if tier == Tier::Thorough && total.violations == 0 {
+        if let Some((target, runs)) = p.fuzz {
+            fuzz_campaign(id, target, runs, seed, &mut total, &mut code);
+        }
+    }
     let wall = start.elapsed().as_secs_f64();
     let meta = (p.meta)();
     write_evidence(id, tier, seed, wall, &total, &meta);
@@ -339,4 +318,68 @@ fn parent(id: &str, tier: Tier) -> i32 {
     } else {
         code
     }
+}
+
+/// Thorough tier only: a libFuzzer campaign (fixed seed and run count, fresh corpus seeded from
+/// fuzz/seeds/<target>) whose target carries the property's oracle. A crash artifact becomes a replay file.
+fn fuzz_campaign(id: &str, target: &str, runs: u64, seed: u64, total: &mut Stats, code: &mut i32) {
+    let root = verif_dir();
+    let base = if std::path::Path::new("/dev/shm").is_dir() { "/dev/shm" } else { "/tmp" };
+    let tmp = std::path::PathBuf::from(format!("{}/lv-fuzz-{}", base, std::process::id()));
+    let corpus = tmp.join("corpus");
+    let arts = tmp.join("artifacts");
+    let _ = std::fs::create_dir_all(&corpus);
+    let _ = std::fs::create_dir_all(&arts);
+    if let Ok(rd) = std::fs::read_dir(format!("{}/fuzz/seeds/{}", root, target)) {
+        for e in rd.flatten() {
+            let _ = std::fs::copy(e.path(), corpus.join(e.file_name()));
+        }
+    }
+    let fseed = ((seed ^ fnv64(id.as_bytes())) % 0x7fff_fffe) + 1; // 0 would mean "random" to libFuzzer
+    let out = Command::new("cargo")
+        .current_dir(format!("{}/harness", root))
+        .args(["+nightly", "fuzz", "run", "--fuzz-dir"])
+        .arg(format!("{}/fuzz", root))
+        .arg(target)
+        .arg(&corpus)
+        .arg("--")
+        .arg(format!("-seed={}", fseed))
+        .arg(format!("-runs={}", runs))
+        .args(["-len_control=0", "-max_len=512", "-print_final_stats=1", "-timeout=60"])
+        .arg(format!("-artifact_prefix={}/", arts.display()))
+        .stdout(Stdio::piped())
+        .stderr(Stdio::piped())
+        .output();
+    let Ok(out) = out else {
+        eprintln!("[lv] could not start cargo fuzz for {}", target);
+        *code = 2;
+        return;
+    };
+    let text = format!("{}{}", String::from_utf8_lossy(&out.stdout), String::from_utf8_lossy(&out.stderr));
+    let stat = |key: &str| -> Option<u64> { text.lines().rev().find(|l| l.contains(key)).and_then(|l| l.rsplit(|c: char| !c.is_ascii_digit()).find(|t| !t.is_empty()).and_then(|t| t.parse().ok())) };
+    let executed = stat("stat::number_of_executed_units").unwrap_or(0);
+    let cov = text.lines().rev().find_map(|l| l.split("cov: ").nth(1).and_then(|r| r.split_whitespace().next()).and_then(|t| t.parse::<u64>().ok())).unwrap_or(0);
+    let corp = text.lines().rev().find_map(|l| l.split("corp: ").nth(1).and_then(|r| r.split('/').next()).and_then(|t| t.parse::<u64>().ok())).unwrap_or(0);
+    total.notes.push(format!("fuzz target {}: seed {} runs requested {} executed {} coverage {} edges corpus {} inputs", target, fseed, runs, executed, cov, corp));
+    total.sub_evaluations += executed;
+    *total.parts.entry(format!("fuzz:{}", target)).or_default() += executed;
+    let artifacts: Vec<std::path::PathBuf> = std::fs::read_dir(&arts).map(|rd| rd.flatten().map(|e| e.path()).collect()).unwrap_or_default();
+    if !artifacts.is_empty() {
+        let why = text.lines().find(|l| l.contains("FUZZ-ORACLE-FAILURE")).unwrap_or("libFuzzer crash (see artifact)").to_string();
+        for a in artifacts {
+            let bytes = std::fs::read(&a).unwrap_or_default();
+            let dir = format!("{}/replays/{}", root, id);
+            let _ = std::fs::create_dir_all(&dir);
+            let path = format!("{}/fuzz-{}-{:016x}.bin", dir, target, fnv64(&bytes));
+            let _ = std::fs::write(&path, &bytes);
+            println!("VIOLATION property={} replay={}", id, path);
+            println!("  {}", why);
+            total.violations += 1;
+            total.violation_lines.push(format!("VIOLATION property={} replay={} {}", id, path, why));
+        }
+    } else if !out.status.success() {
+        eprintln!("[lv] cargo fuzz run {} ended with {:?} without an artifact: infrastructure trouble\n{}", target, out.status.code(), text.lines().rev().take(15).collect::<Vec<_>>().join("\n"));
+        *code = 2;
+    }
+    let _ = std::fs::remove_dir_all(&tmp);
 }
